@@ -79,7 +79,9 @@ pub enum Ev {
     /// order: tripwire, tasks, `late` transaction while subscriptions drain, drop_handles),
     /// 1 = killed at this instant, 2 = killed in the middle of a graceful shutdown (after the
     /// tripwire, before the subscriptions finished), 3 = killed right after a new
-    /// subscription `template` was requested (creation / initial query in flight)
+    /// subscription `template` was requested (creation / initial query in flight),
+    /// 4 = graceful stop, start, transaction `late` and kill before the restored subscriptions
+    /// got to run (their tasks are held at the start of run_restore)
     RestartS { kind: u8, late: Option<Vec<Stmt>>, template: usize },
 }
 
@@ -716,7 +718,7 @@ impl World {
 
     /// C13: stop the subscriber node (gracefully or not) and start it again.
     async fn restart_s(&mut self, kind: u8, late: Option<&[Stmt]>, template: usize) -> R<Result<(), Violation>> {
-        let kind = kind % 4;
+        let kind = kind % 5;
         // nothing is held back across a restart
         verif::gate_release("bcast");
         self.s.quiesce().await?;
@@ -728,6 +730,32 @@ impl World {
         // streams of the old process end with it
         self.clients.clear();
         self.listeners.clear();
+        let actor = seeded_actor(self.seed, 0);
+        if kind == 4 {
+            // clean stop and start with the restored subscriptions held before they mark
+            // themselves running ...
+            verif::gate_arm("sub-restore");
+            let r = Box::pin(self.restart_s_inner(0, None, template, false)).await?;
+            if r.is_err() {
+                verif::gate_release("sub-restore");
+                return Ok(r);
+            }
+            // ... a transaction commits (its candidates are queued for them) ...
+            if let Some(stmts) = late {
+                let api = stmts.iter().map(|s| stmt(&s.sql, s.params.iter().map(|p| p.to_param()).collect())).collect();
+                let (status, resp) = self.s.write(api, None).await?;
+                self.log.push(format!("write in the restore window: {status} {:?}", resp.version));
+                let _ = std::mem::take(&mut self.s.outbox);
+            }
+            // ... and the process is killed
+            self.stats.fault("killed-before-restored-subscriptions-ran");
+            let r = Box::pin(self.restart_s_inner(1, None, template, true)).await?;
+            return Ok(r);
+        }
+        Box::pin(self.restart_s_inner(kind, late, template, true)).await
+    }
+
+    async fn restart_s_inner(&mut self, kind: u8, late: Option<&[Stmt]>, template: usize, wait_running: bool) -> R<Result<(), Violation>> {
         let actor = seeded_actor(self.seed, 0);
         let old_dir = self.s.dir.clone();
         let mut fresh_unclean: Option<uuid::Uuid> = None;
@@ -789,6 +817,7 @@ impl World {
                 let nd = self.dir.join(format!("s-{}", self.incarnation));
                 snapshot_dir(&old_dir, &nd)?;
                 self.s.trip().await;
+                verif::gate_release("sub-restore");
                 self.s.dir = nd;
             }
         }
@@ -801,6 +830,14 @@ impl World {
         let subs = std::mem::take(&mut self.subs);
         for (mut sub, state) in subs.into_iter().zip(states) {
             self.stats.oracle_checks += 1;
+            if graceful && !wait_running {
+                // restored subscriptions are held before they run: only their presence is checked
+                if !sub.dead && self.s.agent.subs_manager().get(&sub.id).is_none() {
+                    return Ok(Err(vio("C13", "subscription-lost-by-graceful-restart", json!({"sql": sub.sql, "state_on_disk": state}))));
+                }
+                self.subs.push(sub);
+                continue;
+            }
             let params = serde_json::from_value(json!({"from": sub.last_change})).map_err(|e| SimError::Harness(e.to_string()))?;
             let resp = klukai_agent::api::public::pubsub::api_v1_sub_by_id(
                 Extension(self.s.agent.clone()),
@@ -815,7 +852,24 @@ impl World {
             if !graceful {
                 // previous run did not finish cleanly: gone, clients are told to resubscribe
                 if status == 200 || self.s.agent.subs_manager().get(&sub.id).is_some() {
-                    return Ok(Err(vio("C13", "subscription-served-after-unclean-stop", json!({"sql": sub.sql, "state_on_disk": state, "kind": kind}))));
+                    // is what it serves stale?
+                    let expected = self.query_node(&sub.sql).await?;
+                    let mut stale = None;
+                    if let Some(h) = self.s.agent.subs_manager().get(&sub.id) {
+                        let conn = h.pool().get().await.map_err(|e| SimError::Harness(e.to_string()))?;
+                        let ncols = h.parsed_columns().len();
+                        let cols: Vec<String> = (0..ncols).map(|i| format!("col_{i}")).collect();
+                        let mut st = conn.prepare(&format!("SELECT {} FROM query", cols.join(",")))?;
+                        let mut rows = st.query([])?;
+                        let mut out = vec![];
+                        while let Some(r) = rows.next()? {
+                            let cells: Vec<SqliteValue> = (0..ncols).map(|i| r.get::<_, SqliteValue>(i)).collect::<rusqlite::Result<_>>()?;
+                            out.push(result_key(&cells));
+                        }
+                        out.sort();
+                        stale = Some(out != expected);
+                    }
+                    return Ok(Err(vio("C13", "subscription-served-after-unclean-stop", json!({"sql": sub.sql, "state_on_disk": state, "kind": kind, "materialised_rows_stale": stale}))));
                 }
                 if dir_exists {
                     return Ok(Err(vio("C13", "unclean-subscription-not-removed", json!({"sql": sub.sql, "state_on_disk": state}))));
@@ -873,6 +927,16 @@ impl World {
                 }
             }
             sub.events_since_flush = 0;
+            if wait_running {
+                // the restored task marks itself running asynchronously; later steps start from there
+                let start = Instant::now();
+                while self.sub_state_on_disk(&new_dir, sub.id).as_deref() != Some("running") {
+                    if start.elapsed() > Duration::from_secs(30) {
+                        return Ok(Err(vio("C13", "restored-subscription-never-running", json!({"sql": sub.sql}))));
+                    }
+                    tokio::time::sleep(Duration::from_millis(1)).await;
+                }
+            }
             self.subs.push(sub);
             let idx = self.subs.len() - 1;
             self.stats.probe("c13.restored");
@@ -1097,8 +1161,8 @@ pub fn generate_for(seed: u64, check: &str) -> Vec<Ev> {
             if r.chance(0.3) {
                 evs.push(Ev::Flush);
             }
-            let kind = r.weighted(&[55, 20, 15, 10]) as u8;
-            let late = if kind == 0 && r.chance(0.5) { Some(g.gen_write(&wl, 0)) } else { None };
+            let kind = r.weighted(&[50, 17, 13, 8, 12]) as u8;
+            let late = if (kind == 0 && r.chance(0.5)) || (kind == 4 && r.chance(0.8)) { Some(g.gen_write(&wl, 0)) } else { None };
             evs.push(Ev::RestartS { kind, late, template: r.usize_below(7) });
             if kind != 0 || r.chance(0.3) {
                 // after an unclean stop clients resubscribe
